@@ -44,7 +44,15 @@ JOBSETS['dec2'] = {
     'wall': {'quick': 1500, 'thorough': 7200},
 }
 
+JOBSETS['hist'] = {
+    'gen': {'families': {'quick': ['hist'], 'thorough': ['hist']}, 'bounds': {'quick': '1,1,1,2', 'thorough': '2,2,2,2'}},
+    'kinds': ['hist'],
+    'cfg': {'quick': {'timeout_s': 600, 'solver_timeout_ms': 10000}, 'thorough': {'timeout_s': 3000, 'solver_timeout_ms': 60000}},
+    'wall': {'quick': 1500, 'thorough': 7200},
+}
+
 PROPS = {
+    'C07': {'jobsets': ['hist', 'dec2'], 'phases': ['pred', 'decode'], 'also_labels': r'^(C03|C09|C05|C06|C01)', 'job_filter': r'^(hist|dec2)/'},
     'C06': {'jobsets': ['unit', 'dec2', 'decmsg', 'codec'], 'phases': [], 'job_filter': r'unit/(span|decoder)|^decmsg/|^dec2/|^codec/', 'also_labels': r'^M-(scan|align)'},
     'C01': {'jobsets': ['codec'], 'phases': ['decode']},
     'C02': {'jobsets': ['codec'], 'phases': []},
